@@ -325,7 +325,9 @@ def rule_literal_terms(ctx: Ctx, rid="C05.LITERAL-VALUES"):
 
         def leaves(x, out):
             if isinstance(x, tuple):
-                if x and x[0] in ("const", "pyconst", "name", "call", "expr", "weight"):
+                if x and x[0] == "weight":
+                    return      # a weight's value/type is C03's, not a literal the program can observe
+                if x and x[0] in ("const", "pyconst", "name", "call", "expr"):
                     out.append(x)
                     return
                 if x and x[0] in ("tuple", "list"):
@@ -819,7 +821,7 @@ def rule_one_generator(ctx: Ctx, rid="C14.ONE-GENERATOR", only=None):
     return out
 
 
-def trace_generated_text(ctx: Ctx, mod, fn, _depth=0):
+def trace_generated_text(ctx: Ctx, mod, fn, _depth=0, bindings=None):
     """Backward trace of the generated text inside `fn`."""
     problems, wrappers = [], []
     assigns = {}
@@ -832,6 +834,8 @@ def trace_generated_text(ctx: Ctx, mod, fn, _depth=0):
             vals = assigns[e.id]
             if len(vals) == 1:
                 return resolve(vals[0], depth + 1)
+        if isinstance(e, ast.Name) and bindings and e.id in bindings:
+            return bindings[e.id]
         return e
 
     gens = [n for n in ast.walk(fn) if isinstance(n, ast.Call) and isinstance(n.func, ast.Attribute)
@@ -855,7 +859,9 @@ def trace_generated_text(ctx: Ctx, mod, fn, _depth=0):
                 elif d in mod.functions():
                     callee = mod.functions()[d]
                 if callee is not None and callee is not fn:
-                    sub = trace_generated_text(ctx, mod, callee, _depth + 1)
+                    ps = [a.arg for a in callee.args.args if a.arg not in ("self", "cls")]
+                    b2 = {p_: resolve(a_) for p_, a_ in zip(ps, c.args)}
+                    sub = trace_generated_text(ctx, mod, callee, _depth + 1, b2)
                     if sub["expose"] is not None or not any("no PythonCodeGen" in p_ for p_ in sub["problems"]):
                         sub["problems"] = [p_ for p_ in sub["problems"] if not p_.startswith("returns something other")]
                         return sub
